@@ -557,6 +557,46 @@ fn main() {
             }
         });
     });
+    // events whose hashed form is at / just below the 65 535-byte limit: what could be hashed and signed must
+    // verify (the limit applies to the event without `hashes`, `signatures`, `unsigned`)
+    let near: Vec<(u8, usize)> = [1u8, 4, 11].iter().flat_map(|v| [0usize, 1, 30, 65, 66, 67, 100].map(|d| (*v, d))).collect();
+    par_shards(&report, near.len(), |i, t| {
+        let (v, below) = near[i];
+        let Some(fam) = fams.iter().find(|f| f.name == "message") else { return };
+        let mut ev = fam.event.clone();
+        let size = |e: &Map<String, Value>| refjson::canonical_without(e, &["hashes", "signatures", "unsigned"]).map(|s| s.len()).unwrap_or(0);
+        let pad = (65_535 - below).saturating_sub(size(&ev));
+        let body = format!("{}{}", ev["content"]["body"].as_str().unwrap_or(""), "a".repeat(pad));
+        ev.get_mut("content").and_then(Value::as_object_mut).map(|c| c.insert("body".into(), json!(body)));
+        if size(&ev) != 65_535 - below {
+            engine::machinery_error("near-limit event has the wrong size");
+        }
+        let required = match required_signers(v, &ev) {
+            Signers::Must(s) => s,
+            _ => return,
+        };
+        let orig = match sign(v, &ev, mask_of(&required, false), t) {
+            Ok(o) => o,
+            Err((s, d)) => {
+                report.violation(&format!("near-limit/{s}"), || d, || json!({"kind": "sign", "v": v, "family": "message"}));
+                return;
+            }
+        };
+        let case = Case {
+            v,
+            family: "message~near-limit".into(),
+            label: format!("near-limit/{below}-bytes-below-the-limit/as-signed"),
+            orig: orig.clone(),
+            event: orig.signed.clone(),
+            map: full_map(),
+            force_unspecified: false,
+        };
+        t.states += 1;
+        t.nontrivial += 1;
+        for (sig, detail) in run_verify(&case, t).1 {
+            report.violation(&sig, || detail.chars().take(600).collect(), || json!({"kind": "near-limit", "v": v, "below": below}));
+        }
+    });
     report.set("versions", json!((1..=11).collect::<Vec<u8>>()));
     report.set("families", json!(fams.iter().map(|f| f.name).collect::<Vec<_>>()));
     report.finish()
